@@ -389,7 +389,7 @@ class BaseGroupBy(ABC):
             Additional keyword arguments to pass to npfunc.
         """
         return self._grouper.apply(
-            self._values_to_group, func, mask, *func_args, **func_kwargs
+            self._values_to_group, func, mask, False, *func_args, **func_kwargs
         )
 
     @groupby_cumulative("Cumulative sum")
